@@ -117,3 +117,99 @@ def guard_atoms(cfg, nid):
 
 def txt(node) -> str:
     return norm(node)
+
+
+# ---- boolean path conditions, compared by truth table ---------------------------
+def bool_atoms(e, out=None):
+    """Atomic propositions (normalised text -> node) of a boolean expression."""
+    if out is None:
+        out = {}
+    if isinstance(e, ast.BoolOp):
+        for v in e.values:
+            bool_atoms(v, out)
+    elif isinstance(e, ast.UnaryOp) and isinstance(e.op, ast.Not):
+        bool_atoms(e.operand, out)
+    else:
+        t, _ = canon_atom(e)
+        out.setdefault(t, e)
+    return out
+
+
+def canon_atom(e):
+    """(canonical text, polarity) of an atomic proposition: `x is not None`,
+    `x != y`, `x not in y` are negative forms of `x is None`, `x == y`, `x in y`;
+    `pd.isna(x)` / `pd.notna(x)` are read as `x is None` / its negation."""
+    pol = True
+    if isinstance(e, ast.Compare) and len(e.ops) == 1:
+        op = e.ops[0]
+        l, r = norm(e.left), norm(e.comparators[0])
+        if isinstance(op, ast.IsNot):
+            return f"{l} is {r}", False
+        if isinstance(op, ast.Is):
+            return f"{l} is {r}", True
+        if isinstance(op, ast.NotEq):
+            return f"{l} == {r}", False
+        if isinstance(op, ast.NotIn):
+            return f"{l} in {r}", False
+    if isinstance(e, ast.Call):
+        d = dotted(e.func) or ""
+        if d.split(".")[-1] in ("isna", "isnull") and len(e.args) == 1 and d.split(".")[0] in ("pd", "pandas", "np", "numpy"):
+            return f"{norm(e.args[0])} is None", True
+        if d.split(".")[-1] in ("notna", "notnull") and len(e.args) == 1 and d.split(".")[0] in ("pd", "pandas", "np", "numpy"):
+            return f"{norm(e.args[0])} is None", False
+    return norm(e), pol
+
+
+def eval_bool(e, assign) -> bool:
+    if isinstance(e, ast.BoolOp):
+        vals = [eval_bool(v, assign) for v in e.values]
+        return all(vals) if isinstance(e.op, ast.And) else any(vals)
+    if isinstance(e, ast.UnaryOp) and isinstance(e.op, ast.Not):
+        return not eval_bool(e.operand, assign)
+    t, pol = canon_atom(e)
+    v = assign[t]
+    return v if pol else not v
+
+
+def path_condition(cfg, nid, keep=None, rename=None):
+    """Canonical form of the condition under which node `nid` is reached:
+    (sorted atom names, frozenset of satisfying assignments as bit tuples),
+    over the atoms accepted by `keep(text, node)`; other atoms are projected
+    out existentially.  Two guards written differently (if-form vs early
+    exit, De Morgan variants, `is not None` vs `not ... is None`) compare equal."""
+    tests = cfg.guards(nid)
+    atoms = {}
+    for t, _ in tests:
+        bool_atoms(t, atoms)
+    names = sorted(atoms)
+    if len(names) > 14:
+        raise ValueError("too many atoms in path condition")
+    kept = [n for n in names if keep is None or keep(n, atoms[n])]
+    shown = [rename(n) if rename else n for n in kept]
+    sat = set()
+    for bits in range(1 << len(names)):
+        a = {names[i]: bool(bits >> i & 1) for i in range(len(names))}
+        if all(eval_bool(t, a) == pol for t, pol in tests):
+            sat.add(tuple(a[n] for n in kept))
+    order = sorted(range(len(shown)), key=lambda i: shown[i])
+    shown_sorted = tuple(shown[i] for i in order)
+    sat_sorted = frozenset(tuple(s[i] for i in order) for s in sat)
+    # drop atoms the condition does not depend on
+    dep = []
+    for i in range(len(shown_sorted)):
+        flip = {s[:i] + (not s[i],) + s[i + 1:] for s in sat_sorted}
+        if flip != set(sat_sorted):
+            dep.append(i)
+    names2 = tuple(shown_sorted[i] for i in dep)
+    sat2 = frozenset(tuple(s[i] for i in dep) for s in sat_sorted)
+    return names2, sat2
+
+
+def show_condition(pc) -> str:
+    names, sat = pc
+    if not names:
+        return "always" if sat else "never"
+    terms = []
+    for s in sorted(sat):
+        terms.append(" and ".join((n if v else f"not({n})") for n, v in zip(names, s)))
+    return " OR ".join(f"[{t}]" for t in terms)
